@@ -143,8 +143,9 @@ func c55(c *Ctx) {
 				c.MustFact(r, "no-truncation-only-for-unlimited", Cmp(FieldLoad(c.field(bl, "TruncatingMethodLogger", "headerMaxLen")), token.EQL, AnyConst))
 				continue
 			}
-			b, ok := v.(*ssa.BinOp)
-			c.Expect(ok && b.Op == token.LSS && (LenOf(FieldLoad(fEntry))(b.Y) || DataDep(LenOf(FieldLoad(fEntry)))(b.Y)), r, f, "truncated-iff-fewer-kept", "the truncated flag is not 'kept fewer entries than existed'")
+			// kept < len(entries), in either spelling
+			op, _, _, ok := cmpOriented(v, func(w ssa.Value) bool { return LenOf(FieldLoad(fEntry))(w) || DataDep(LenOf(FieldLoad(fEntry)))(w) })
+			c.Expect(ok && op == token.GTR, r, f, "truncated-iff-fewer-kept", "the truncated flag is not 'kept fewer entries than existed'")
 		}
 	})
 	c.Ob("message-truncation", "R2", "truncateMessage: the data is cut to the message limit exactly when it is longer, and only then reported truncated; Build stores the truncation verdict for client headers, server headers and messages", 4, func() {
